@@ -310,3 +310,53 @@ def judge_c17(rec):
     if not out:
         out.append(V("C17", "held", cell=cell, **sig))
     return out
+
+
+# --------------------------------------------------------------------------- C12 / C16 in situ
+
+
+def judge_c12_step(rec):
+    """operators requested through the Operation interface are the reference matrices at the dimension of the
+    target; plus every verdict the constructor contracts recorded while the library executed this step"""
+    from pwv import contracts
+    out = contracts.drain("C12")
+    st = rec.step
+    if st["k"] != "apply" or rec.exc is not None or rec.op_obj is None or st.get("fault") or st.get("dead_probe"):
+        return out
+    sp = st["op"]
+    sig = step_sig(rec)
+    cell = ("Operation.operator-in-situ", sig.get("op"), sig["via"], sig["storage"])
+    op = rec.op_obj
+    try:
+        dims = list(op._dimensions)
+    except Exception:  # noqa: BLE001
+        return out
+    w = rec.world
+    post = impl_dims(rec.post)
+    for i, t in enumerate(st["targets"]):
+        if w.kind(t) == "F" and i < len(dims) and post.get(t) is not None and sp["type"] != "Expression":
+            if dims[i] != post[t]:
+                out.append(V("C12", "violated", "operator-dimension", f"{sig.get('op')}: operator built for dimension {dims[i]} but target {t} has {post[t]}", cell=cell, **sig))
+                return out
+    try:
+        got = np.asarray(op.operator, complex)
+        rdims = [post.get(t) or 2 for t in st["targets"]] if sp["fam"] != "comp" or sp["type"] != "Expression" else dims
+        want = opspec.ref_operator(sp, rdims if sp["fam"] in ("fock", "comp") else dims)
+        e = ref.maxdiff(got, np.asarray(want, complex))
+    except Exception as ex:  # noqa: BLE001
+        return out + [V("C12", "inconclusive", "in-situ-unreadable", str(ex), cell=cell, **sig)]
+    if e > 1e-8:
+        out.append(V("C12", "violated", "operation-operator", f"{sig.get('op')} at dims {dims}: maxabs={e:.3g}", cell=cell, **sig))
+    else:
+        out.append(V("C12", "held", cell=cell, **sig))
+    return out
+
+
+def judge_c16_step(rec):
+    """verdicts the interpreter contract recorded while the library evaluated expressions during this step;
+    the context must have been called with the dimension list only"""
+    from pwv import contracts
+    out = contracts.drain("C16")
+    for v in out:
+        v["cell"] = ("in-situ",) + tuple(v["cell"] or ())
+    return out
